@@ -206,6 +206,27 @@ func newIBCEnv(t *testing.T, tokenKind ...string) *ibcEnv {
 	return e
 }
 
+// relay delivers the packet on dst and its acknowledgement on src with transactions that may fail; it returns why the
+// packet stays pending, or "".
+func (e *ibcEnv) relay(src, dst *haqqibc.Endpoint, packet channeltypes.Packet) string {
+	must(dst.UpdateClient())
+	proof, proofHeight := src.Chain.QueryProof(host.PacketCommitmentKey(packet.GetSourcePort(), packet.GetSourceChannel(), packet.GetSequence()))
+	res, err := ibcDeliver(dst.Chain, channeltypes.NewMsgRecvPacket(packet, proof, proofHeight, dst.Chain.SenderAccount.GetAddress().String()))
+	if err != nil {
+		return "receive transaction failed (packet stays pending): " + err.Error()
+	}
+	must(src.UpdateClient())
+	ack, err := ibcgotesting.ParseAckFromEvents(res.GetEvents())
+	if err != nil {
+		return "no acknowledgement written (packet stays pending): " + err.Error()
+	}
+	aproof, aheight := dst.QueryProof(host.PacketAcknowledgementKey(packet.GetDestPort(), packet.GetDestChannel(), packet.GetSequence()))
+	if _, err := ibcDeliver(src.Chain, channeltypes.NewMsgAcknowledgement(packet, ack, aproof, aheight, src.Chain.SenderAccount.GetAddress().String())); err != nil {
+		return "acknowledgement transaction failed (packet stays pending): " + err.Error()
+	}
+	return ""
+}
+
 // transfer sends a MsgTransfer from `from` and relays it according to mode; returns false if the message failed.
 func (e *ibcEnv) transfer(fromHaqq bool, denom string, amt int64, mode string) (bool, string) {
 	src, dst := e.path.EndpointA, e.path.EndpointB
@@ -242,20 +263,8 @@ func (e *ibcEnv) transfer(fromHaqq bool, denom string, amt int64, mode string) (
 			return true, "timeout transaction failed (packet stays pending): " + err.Error()
 		}
 	default:
-		must(dst.UpdateClient())
-		proof, proofHeight := src.Chain.QueryProof(host.PacketCommitmentKey(packet.GetSourcePort(), packet.GetSourceChannel(), packet.GetSequence()))
-		res, err := ibcDeliver(dst.Chain, channeltypes.NewMsgRecvPacket(packet, proof, proofHeight, dst.Chain.SenderAccount.GetAddress().String()))
-		if err != nil {
-			return true, "receive transaction failed (packet stays pending): " + err.Error()
-		}
-		must(src.UpdateClient())
-		ack, err := ibcgotesting.ParseAckFromEvents(res.GetEvents())
-		if err != nil {
-			return true, "no acknowledgement written: " + err.Error()
-		}
-		aproof, aheight := dst.QueryProof(host.PacketAcknowledgementKey(packet.GetDestPort(), packet.GetDestChannel(), packet.GetSequence()))
-		if _, err := ibcDeliver(src.Chain, channeltypes.NewMsgAcknowledgement(packet, ack, aproof, aheight, src.Chain.SenderAccount.GetAddress().String())); err != nil {
-			return true, "acknowledgement transaction failed (packet stays pending): " + err.Error()
+		if why := e.relay(src, dst, packet); why != "" {
+			return true, why
 		}
 	}
 	return true, ""
@@ -291,6 +300,7 @@ func runIBC(st *ev.Stats, t *testing.T, c IBCCase) string {
 		return out[0].(*big.Int)
 	}
 	pendingT := new(big.Int) // ERC20-origin coins of packets whose refund transaction failed (still in flight)
+	pendingV := new(big.Int) // vouchers burnt on sending whose refund transaction failed (still in flight)
 	check := func(step int, op IBCOp) string {
 		ctx := e.H.GetContext()
 		bctx := e.B.GetContext()
@@ -310,7 +320,7 @@ func runIBC(st *ev.Stats, t *testing.T, c IBCCase) string {
 		if a, b := bank.GetBalance(ctx, escrowH, e.denomT).Amount, bbank.GetSupply(bctx, e.denomB).Amount.Add(sdkmath.NewIntFromBigInt(pendingT)); !a.Equal(b) {
 			return fail("ibc-conservation:erc20-origin:"+op.K+":"+op.Mode, fmt.Sprintf("after op %d %+v: Haqq channel escrow holds %s %s, chain B has %s vouchers", step, op, a, e.denomT, b))
 		}
-		if a, b := bbank.GetBalance(bctx, escrowB, sdk.DefaultBondDenom).Amount, bank.GetSupply(ctx, e.denomV).Amount.SubRaw(1); !a.Equal(b) {
+		if a, b := bbank.GetBalance(bctx, escrowB, sdk.DefaultBondDenom).Amount, bank.GetSupply(ctx, e.denomV).Amount.SubRaw(1).Add(sdkmath.NewIntFromBigInt(pendingV)); !a.Equal(b) {
 			return fail("ibc-conservation:coin-origin:"+op.K+":"+op.Mode, fmt.Sprintf("after op %d %+v: chain B escrows %s, Haqq has %s vouchers (one seed unit excluded)", step, op, a, b))
 		}
 		return ""
@@ -357,6 +367,10 @@ func runIBC(st *ev.Stats, t *testing.T, c IBCCase) string {
 			}
 			op.Amt = amt
 			ok, why = e.transfer(true, e.denomV, amt, op.Mode)
+			if ok && strings.Contains(why, "packet stays pending") {
+				pendingV.Add(pendingV, big.NewInt(op.Amt))
+				st.Class("refund-pending:" + op.Mode)
+			}
 		case "pause":
 			if c.Token != "pausable" {
 				continue
@@ -423,6 +437,10 @@ func runIBC(st *ev.Stats, t *testing.T, c IBCCase) string {
 			case op.K == "in-coin" && op.Mode == "ok":
 				wantV = op.Amt
 			case op.K == "out-coin" && op.Mode == "ok":
+				wantV = -op.Amt
+			case op.K == "out-erc20" && strings.Contains(why, "packet stays pending"):
+				wantT = -op.Amt // the refund has not happened (yet)
+			case op.K == "out-coin" && strings.Contains(why, "packet stays pending"):
 				wantV = -op.Amt
 			}
 		}
